@@ -646,7 +646,7 @@ fn arb_case() -> impl Strategy<Value = InputCase> {
 }
 
 pub fn run(ctx: &Ctx, st: &mut Stats) {
-    let n = ctx.tier.pick(25_000, 1_500_000);
+    let n = ctx.tier.pick(100_000, 1_500_000);
     INPUT.run_random(ctx, st, n, arb_case);
 }
 
